@@ -121,6 +121,10 @@ STAGES = ('create_variant_graph', 'create_variant_circ_graph', 'fit_into_codons'
           'call_peptide_main', 'call_canonical_peptides')
 
 
+# the stage functions live in these files (``translate`` etc. are also method names of nodes and sequences)
+STAGE_FILES = ('ThreeFrameTVG.py', 'ThreeFrameCVG.py', 'PeptideVariantGraph.py', 'call_variant_peptide.py')
+
+
 class FakeSignal:
     """What cli.common sees as the ``signal`` module.
 
@@ -183,8 +187,9 @@ class FakeSignal:
         stages = run.stage_marks.setdefault(f'{tx}#{att}', [])
 
         def glob(frame, event, arg):
-            if _traced_file(frame.f_code.co_filename):
-                if fs.count_all and frame.f_code.co_name in STAGES:
+            fn = frame.f_code.co_filename
+            if _traced_file(fn):
+                if fs.count_all and frame.f_code.co_name in STAGES and os.path.basename(fn) in STAGE_FILES:
                     stages.append((frame.f_code.co_name, fs.lines))
                 return local
             return None
@@ -223,6 +228,7 @@ class Run:
         self.table = None
         self.fasta_exists = None
         self.step_capped = False
+        self.wall_capped = False
         self.unit_peptides = {}    # 'kind|tx|uid' -> peptide sequences the unit returned
 
 
@@ -364,9 +370,14 @@ class Seams:
                 st = {'n': 0, 'fired': False}
                 prev = sys.gettrace()
 
+                cap = self.line_cap
+
                 def local(frame, event, arg):
                     if event == 'line':
                         st['n'] += 1
+                        if cap and st['n'] > cap:
+                            run.step_capped = True
+                            raise StepCap(f'unit exceeded {cap} line events')
                         if st['n'] == kfire and not st['fired']:
                             st['fired'] = True
                             run.fault_fired.append({
@@ -462,6 +473,42 @@ class Seams:
         return False
 
 
+class WallBudget(Exception):
+    """Raised (repeatedly) in the running product code once one execution exceeds the wall budget."""
+
+
+class WallGuard:
+    """Last-resort bound on one execution: the REAL interval timer (the product only sees FakeSignal, so SIGALRM
+    is free for the harness).  A capped execution is discarded by the engines (``run.wall_capped``), never judged:
+    bounded runs only.  The budget is generous (default 240 s, typical executions take < 5 s), so it does not
+    interfere with determinism except for inputs that would otherwise hang the batch."""
+    def __init__(self, run):
+        self.run = run
+        self.budget = float(os.environ.get('VERIF_EXEC_WALL_S', '240'))
+
+    def __enter__(self):
+        import signal as real_signal
+        self.sig = real_signal
+        run = self.run
+
+        def handler(signum, frame):
+            run.wall_capped = True
+            real_signal.setitimer(real_signal.ITIMER_REAL, 0.5)     # keep raising until the execution unwinds
+            raise WallBudget('execution exceeded the wall budget')
+        try:
+            self.prev = real_signal.signal(real_signal.SIGALRM, handler)
+            real_signal.setitimer(real_signal.ITIMER_REAL, self.budget)
+        except ValueError:       # not in the main thread
+            self.prev = None
+        return self
+
+    def __exit__(self, *exc):
+        self.sig.setitimer(self.sig.ITIMER_REAL, 0)
+        if self.prev is not None:
+            self.sig.signal(self.sig.SIGALRM, self.prev)
+        return False
+
+
 def run_callvariant(ref, files, out_fasta, config, sched=None, faults=None, alarm_plan=None,
                     count_units=False, count_attempts=False, skip_units=None, line_cap=None):
     """Execute the real ``call_variant_peptide`` once.  Never raises for product exceptions."""
@@ -473,11 +520,12 @@ def run_callvariant(ref, files, out_fasta, config, sched=None, faults=None, alar
         if p.exists():
             p.unlink()
     args = make_args(ref, files, out_fasta, config)
-    with Seams(run, sched, faults, alarm_plan, count_units, count_attempts, skip_units, line_cap):
+    with Seams(run, sched, faults, alarm_plan, count_units, count_attempts, skip_units, line_cap), \
+            WallGuard(run):
         try:
             with contextlib.redirect_stdout(io.StringIO()), contextlib.redirect_stderr(io.StringIO()):
                 cvp.call_variant_peptide(args)
-            run.ok = True
+            run.ok = not run.wall_capped
         except SystemExit as e:
             run.exc = ('SystemExit', str(e.code))
         except Exception as e:  # pylint: disable=broad-except
